@@ -130,6 +130,7 @@ func main() {
 	genLocal()
 	genManager()
 	genManagerCFG()
+	genRouter()
 	if forProp == "" || forProp == "C15" {
 		genLockset()
 	}
